@@ -34,16 +34,22 @@ def S(s):
     return [ord(c) for c in s]
 
 
+# SINGLE constants written as short decimals that are not dyadic: the value is the nearest SINGLE
+# (0.1 = 13421773 * 2^-27, 0.3 = 5033165 * 2^-24, 2.7 = 11324621 * 2^-22), which is inside the model's window
+DECIMAL_TEXT = {('S', 13421773, -27): '0.1', ('S', 5033165, -24): '0.3', ('S', 11324621, -22): '2.7'}
+
+
 def boundary(tier):
     I = [0, 1, -1, 2, 7, -7, 255, 32767, -32768]
     L = [0, 1, -3, 32768, -32769, 65536, 100000, 2147483647, -2147483648]
-    Sg = [(0, 0), (1, -1), (-1, -1), (3, -1), (5, -1), (-5, -1), (3, 0), (1, -2), (16777215, 0), (-7, 2), (1, 127)]
+    Sg = [(0, 0), (1, -1), (-1, -1), (3, -1), (5, -1), (-5, -1), (3, 0), (1, -2), (16777215, 0), (-7, 2), (1, 127),
+          (13421773, -27), (5033165, -24), (11324621, -22)]
     D = [(1, -1), (-3, -1), (5, -1), (1, 10), (1, -3), (1, 130), (-3, 1000)]
     T = ['', 'a', 'ab', 'B', 'a ']
     if tier == 'quick':
         I = [0, -1, 2, 7, -7, 32767, -32768]
         L = [1, -3, 32768, 2147483647, -2147483648]
-        Sg = [(0, 0), (1, -1), (3, -1), (5, -1), (-5, -1), (-7, 2), (1, 127)]
+        Sg = [(0, 0), (1, -1), (3, -1), (5, -1), (-5, -1), (-7, 2), (1, 127), (13421773, -27)]
         D = [(1, -1), (-3, -1), (5, -1), (1, 130)]
         T = ['', 'a', 'ab', 'B']
     b = [['I', v, 0] for v in I] + [['L', v, 0] for v in L] + [['S', m, e] for m, e in Sg] + \
@@ -65,6 +71,8 @@ def val_ast(v):
         return {'k': 'par', 'a': n} if v[1] < 0 else n
     if k in 'SD':
         n = {'k': 'num', 't': k, 'm': v[1], 'e': v[2]}
+        if (k, v[1], v[2]) in DECIMAL_TEXT:
+            n['txt'] = DECIMAL_TEXT[(k, v[1], v[2])]
         return {'k': 'par', 'a': n} if v[1] < 0 else n
     return {'k': 'str', 'b': v[1]}
 
